@@ -673,9 +673,22 @@ class JnpArangePlugin(PrimitiveLeafPlugin):
         builder = getattr(ctx, "builder", None)
         if builder is None:
             raise AttributeError("IR build context missing builder for arange lowering")
+        # A float16 / bfloat16 Range counts and steps in that type: exact only while
+        # every index is representable (2**11 / 2**8).  arange(2051, dtype=float16)
+        # would otherwise produce 2052 elements; longer or symbolic results keep
+        # the float32 Range + Cast of the older opsets.
+        out_shape = tuple(getattr(getattr(eqn.outvars[0], "aval", None), "shape", ()))
+        out_len = out_shape[0] if out_shape else None
+        exact_count = (
+            isinstance(out_len, (int, np.integer))
+            and int(out_len) <= 2 ** (int(np.finfo(result_dtype).nmant) + 1)
+            if np.issubdtype(result_dtype, np.floating)
+            else True
+        )
         use_native_range_dtype = (
             int(getattr(builder, "opset", 0) or 0) >= 27
             and result_dtype in _OPSET27_NATIVE_RANGE_DTYPES
+            and exact_count
         )
         range_dtype = (
             result_dtype
